@@ -30,6 +30,9 @@ CHECKS = {
  "C13": dict(cat="fault_enumeration", tech="exhaustive placement product (preceding lines x same-statement prefix x separator) per diagnostic kind, planted byte offset vs reported span; binary stderr replay",
    text="For 13 located diagnostic kinds the planted token's true line/column (known because the harness writes the text) is compared with the span the library returns for every placement of the slot product, and with the `path:L:C:` prefixes, print order and source snippet lines of the real binary's stderr on a covering subset (thorough: all).",
    note="trusted: byte-column convention; chic's `N | source` snippet layout parsed by the harness", ref="4/C13"),
+ "C14": dict(cat="exploration", tech="metamorphic exhaustive single-deviation enumeration (every separator at every gap, spellings, parentheses, all definition permutations) with byte comparison; binary replay on the corpus",
+   text="For every accepted grammar of the enumerated families the canonical print and every single re-layout (each separator at each token gap, ::=, final ;, redundant parentheses around each node outside a word, every permutation of the definitions) are compiled in-process and compared byte for byte (plus verdict and warning counts); corpus texts go through the real binary in their original layout, the canonical re-print and two re-layouts.",
+   note="trusted: harness printer (validated by C05); target shell rotates over the variants, the canonical print is compiled for all four", ref="4/C14"),
  "C15": dict(cat="exploration", tech="exhaustive enumeration of reference structures (definition statuses x reference subsets) against a reachability oracle",
    text="All 6^3 status vectors of three definable names x all subsets of call-variant references x all acyclic body reference subsets x 4 targets: the three warning sets must equal the reachability oracle, every warning span must cover the offending name token, and deleting everything warned about must not change the script bytes or the verdict.",
    note="trusted: reachability oracle r8::warnings; Level L observes ValidGrammar's maps after main.rs's `_` exemption", ref="4/C15"),
